@@ -2,7 +2,7 @@
 import pickle
 
 from mc import core
-from mc.cluster import Monitor
+from mc.cluster import Monitor, tick_dt
 
 
 class DurabilityMonitor(Monitor):
@@ -42,6 +42,15 @@ class DurabilityMonitor(Monitor):
                                              '%r lacks entry (index %d, term %d) it held before the kill' % (
                                                  nid, acked.get(nid, 0), pre_w and ev, [(e[0], e[1]) for e in post.log], idx, t),
                                              sig='acked-entry-forgotten')
+        # a node rebuilds its state up to what it knows to be committed: one tick applies everything between its
+        # applied and commit index, so after a tick of its own the two are equal (as far as its log reaches)
+        if post.alive and pre.alive and tick_dt(model.cfg, ev) is not None and post.commit is not None and \
+                not (len(post.extra) > 2 and ('fresh', 1) in post.extra):
+            top = min(post.commit, post.last or 0)
+            if post.applied < top:
+                raise core.Violation('C06 %s has ticked but its applied index stays at %d although it knows positions up to %d to be '
+                                     'committed (its log holds %d..%d): the state it rebuilt is not that of the committed prefix it knows (%r)' % (
+                                         nid, post.applied, top, post.first, post.last, ev), sig='stuck-behind-commit')
         return tuple(sorted(acked.items()))
 
 
